@@ -1037,6 +1037,8 @@ def _helper_call(e: ast.AST, helpers: Dict[str, Tuple[ast.FunctionDef, bool]], c
         return f.id
     if isinstance(f, ast.Attribute) and isinstance(f.value, ast.Name) and f.value.id in ("self", "cls") and cls is not None and f"{cls}.{f.attr}" in helpers:
         return f"{cls}.{f.attr}"
+    if isinstance(f, ast.Attribute) and f"<any>.{f.attr}" in helpers and _alias_expr(f.value):
+        return f"<any>.{f.attr}"
     return None
 
 
@@ -1449,7 +1451,13 @@ def rehome(tree: ast.Module, ref_funcs: Set[str]) -> int:
     return n
 
 
-def canonicalise(tree: ast.Module, ref_funcs: Optional[Set[str]], ref_consts: Optional[Set[str]], noreturn: Set[str] = frozenset(NORETURN_DEFAULT)) -> Dict[str, int]:
+_BUILTIN_METHODS = set()
+for _t in (dict, list, set, frozenset, str, bytes, tuple, int, float, object, type):
+    _BUILTIN_METHODS |= set(dir(_t))
+_BUILTIN_METHODS |= {"read", "write", "close", "open", "flush", "send", "recv", "run", "start", "stop", "next", "name", "visit", "match", "group", "search", "sub", "dumps", "loads", "new", "digest", "hexdigest", "export", "elaborate"}
+
+
+def canonicalise(tree: ast.Module, ref_funcs: Optional[Set[str]], ref_consts: Optional[Set[str]], noreturn: Set[str] = frozenset(NORETURN_DEFAULT), unique_defs: Optional[Set[str]] = None) -> Dict[str, int]:
     """Bring every function of the module into canonical form, in place.  `ref_funcs` / `ref_consts`: the
     qualified function names / module-level constant names of this file on the reference tree (None: no
     reference for the file — nothing is inlined)."""
@@ -1500,6 +1508,9 @@ def canonicalise(tree: ast.Module, ref_funcs: Optional[Set[str]], ref_consts: Op
             if _recursive(fn):
                 continue
             helpers[q if cls else fn.name] = (fn, is_method)
+            if is_method and unique_defs is not None and fn.name in unique_defs and fn.name not in _BUILTIN_METHODS and not fn.name.startswith("__"):
+                # `x.<name>(..)` on any receiver can only be this method (the one `def <name>` of the analysed trees)
+                helpers["<any>." + fn.name] = (fn, True)
         if helpers:
             # helpers are themselves brought into full canonical form first (temporaries, comprehensions):
             # `t = [..]; return all(x in t ..)` is then a single expression and can be inlined into a test
@@ -1564,6 +1575,9 @@ def canonicalise(tree: ast.Module, ref_funcs: Optional[Set[str]], ref_consts: Op
     for q, cls, fn, _c in funcs:
         if ".<locals>." in q:
             continue
+        # C12 for every function: a predicate written as a decision tree of boolean returns is one boolean expression
+        if expression_bodied(fn):
+            stats["predicates"] = stats.get("predicates", 0) + 1
         params = {a.arg for a in ast.walk(fn.args) if isinstance(a, ast.arg)}
         for _k in range(4):
             a = _loops_to_comprehensions(fn)
